@@ -24,7 +24,8 @@ _HOSTILE = ['q"uo"te', 'back\\sl\\ash', 'new\nline', 'tab\there', 'ctl\x01\x1f\x
             '\U0001F600emoji', '}{[],:', '\\"', '\\u0041', "it's", '</script>']
 
 # any text without tab/newline, not starting with '#', no outer blanks (C03 domain)
-_TSVODD = ['a"b', 'back\\slash', 'in#side', 'x  y', '1e5', '-3', 'nan', "it's", 'inf', '0', 'OTU ID', 'a,b;c|d']
+_TSVODD = ['a"b', '"quoted"', 'core 12"', 'back\\slash', 'in#side', 'x  y', '1e5', '-3', 'nan', "it's", 'inf', '0', 'OTU ID',
+           'a,b;c|d', "'single'"]     # (quotes at the ends: a reader that "tolerates spreadsheet quoting" would eat them)
 
 
 def make_ids(kind, axis, n):
